@@ -121,8 +121,6 @@ class InventoryBuffer(Entity):
         return self._handle_consume(event)
 
     def _handle_consume(self, event: Event) -> list[Event]:
-        from happysimulator.core.temporal import Instant
-
         amount = event.context.get("quantity", 1)
         results: list[Event] = []
 
@@ -164,7 +162,7 @@ class InventoryBuffer(Entity):
             now_s = self.now.to_seconds()
             results.append(
                 Event(
-                    time=Instant.from_seconds(now_s + self.lead_time),
+                    time=self.now + self.lead_time,
                     event_type=_REPLENISH,
                     target=self,
                     context={"quantity": self.order_quantity},
